@@ -2,6 +2,7 @@ package main
 
 import (
 	"fmt"
+	"strings"
 	"go/constant"
 	"go/token"
 	"go/types"
@@ -421,6 +422,17 @@ func (fr *Frame) exec(in ssa.Instruction) {
 			ex.abstr["function value stored to memory in "+fr.fn.Name()] = true
 			v = vInt("0")
 		}
+		if v.K == VPtr && (v.P.Root != "obj" || v.P.Path != "") {
+			// an interior pointer kept in a local cell (captured receiver etc.): remembered symbolically
+			if a.P.Root == "obj" && strings.HasPrefix(a.P.Ref, "ref!") {
+				if ex.cellPtr == nil {
+					ex.cellPtr = map[string]Val{}
+				}
+				ex.cellPtr[a.P.Ref+"/"+a.P.Path] = v
+				return
+			}
+			panic(oos("interior pointer stored to the heap in %s", fr.fn.Name()))
+		}
 		ex.store(fr.st, a.P, et, v)
 	case *ssa.BinOp:
 		x, y := fr.val(in.X), fr.val(in.Y)
@@ -614,6 +626,10 @@ func (fr *Frame) unop(in *ssa.UnOp) {
 		}
 		fr.nilCheck(x.P, in.Pos())
 		t := in.Type()
+		if cv, ok := ex.cellPtr[x.P.Ref+"/"+x.P.Path]; ok && x.P.Root == "obj" {
+			fr.vals[in] = cv
+			return
+		}
 		v := ex.load(fr.st, x.P, t)
 		v = fr.define(in, v)
 		fr.loadFacts(t, v)
